@@ -1616,6 +1616,7 @@ pub(crate) mod convert {
         DwoId, LineEncoding, LocationListsOffset, RangeListsOffset, UnitSectionOffset,
     };
     use crate::read::{self, Reader, ReaderOffset};
+    use crate::write::op::convert::MAX_ENTRY_VALUE_DEPTH;
     use crate::write::{
         self, ConvertError, ConvertLineProgram, ConvertResult, Dwarf, LocationList, RangeList,
     };
@@ -1977,6 +1978,15 @@ pub(crate) mod convert {
             deps: &mut Vec<UnitSectionOffset>,
             expression: read::Expression<R>,
         ) -> ConvertResult<()> {
+            self.add_nested_expression_refs(deps, expression, 0)
+        }
+
+        fn add_nested_expression_refs(
+            &mut self,
+            deps: &mut Vec<UnitSectionOffset>,
+            expression: read::Expression<R>,
+            depth: usize,
+        ) -> ConvertResult<()> {
             let mut ops = expression.operations(self.read_unit.encoding());
             // Ignore parsing errors. They can be handled in the conversion step.
             while let Ok(Some(op)) = ops.next() {
@@ -2019,7 +2029,14 @@ pub(crate) mod convert {
                         deps.push(offset);
                     }
                     read::Operation::EntryValue { expression } => {
-                        self.add_expression_refs(deps, read::Expression(expression))?;
+                        // Deeper nesting is rejected when the expression is converted.
+                        if depth < MAX_ENTRY_VALUE_DEPTH {
+                            self.add_nested_expression_refs(
+                                deps,
+                                read::Expression(expression),
+                                depth + 1,
+                            )?;
+                        }
                     }
                     _ => {}
                 }
